@@ -29,13 +29,30 @@ import (
 	"github.com/google/trillian/crypto/keyspb"
 	"github.com/google/trillian/monitoring"
 	"google.golang.org/grpc"
+	"google.golang.org/protobuf/proto"
 	"google.golang.org/protobuf/types/known/anypb"
 
 	"verif/harness/pki"
 )
 
 func init() {
-	keys.RegisterHandler(&keyspb.PrivateKey{}, der.FromProto)
+	keys.RegisterHandler(&keyspb.PrivateKey{}, signerFromProto)
+}
+
+// signer hook (Options.WrapSigner): the instance obtains its crypto.Signer from the key proto
+// through the handler registry of trillian/crypto/keys, so a wrapper can only be installed
+// there; setupMu makes "set the hook, set up the instance" one critical section.
+var (
+	setupMu    sync.Mutex
+	wrapSigner func(crypto.Signer) crypto.Signer
+)
+
+func signerFromProto(ctx context.Context, pb proto.Message) (crypto.Signer, error) {
+	s, err := der.FromProto(ctx, pb)
+	if err == nil && wrapSigner != nil {
+		s = wrapSigner(s)
+	}
+	return s, err
 }
 
 // Call records one backend RPC.
@@ -187,6 +204,9 @@ type Options struct {
 	Deadline     time.Duration
 	STHStorage   ctfe.MirrorSTHStorage
 	NoClock      bool
+	// WrapSigner, if set, wraps the log's signer (the one that signs SCTs and STHs) before the
+	// instance sees it: latency, gates and failures of the signer.  Public() must stay the log key's.
+	WrapSigner func(crypto.Signer) crypto.Signer
 }
 
 // Env is a constructed instance with its collaborators.
@@ -248,6 +268,12 @@ func New(o Options) (*Env, error) {
 		RequestLog: rl, MaskInternalErrors: o.Mask, ErrorMapper: o.ErrorMapper, STHStorage: o.STHStorage}
 	clk := &Clock{T: time.Date(2024, 5, 6, 7, 8, 9, 123456789, time.UTC)}
 	var inst *ctfe.Instance
+	setupMu.Lock()
+	wrapSigner = o.WrapSigner
+	defer func() {
+		wrapSigner = nil
+		setupMu.Unlock()
+	}()
 	if o.NoClock {
 		inst, err = ctfe.SetUpInstanceVerif(context.Background(), iopts, nil, o.ChainStorage, o.ChainCache)
 	} else {
